@@ -186,7 +186,7 @@ func init() {
 	fw.Register(&fw.Property{ID: "C05", Level: "exploration", Cases: cases(192, 8000), Assumptions: common, Need: []string{"unlocks_observed", "completions_observed"},
 		Rule: "mixed histories with purchasers of every account kind (base, delayed/continuous/periodic vesting, permanent-locked), fee sets {none, low, exact, high, extra denom}, fee granters, bad sequences, nested WRKChain/BEACON ops. Per DeliverTx for every account: locked falls only for the fee payer of a tx with a top-level WRKChain/BEACON message that passed ante, by exactly min(fee, locked), recorded as spent; at a completion the purchaser's spendable (same block time) does not rise. distinct = (account kind, locked vs fee, granter?, fee denoms, outcome)",
 		Run: func(c *fw.Ctx) { runMixedProp(c, "C05") }})
-	fw.Register(&fw.Property{ID: "C17", Level: "exploration", Cases: cases(96, 4000), Assumptions: append(common, "total native supply stays below 2^63 (EnterpriseSupply is uint64-typed by its API)"), Need: []string{"supply_queries", "page_walks"},
+	fw.Register(&fw.Property{ID: "C17", Level: "exploration", Cases: cases(128, 4000), Assumptions: append(common, "total native supply stays below 2^63 (EnterpriseSupply is uint64-typed by its API)"), Need: []string{"supply_queries", "page_walks"},
 		Rule: "mixed histories with 3 denominations; at every block boundary, through the committed-state query context: SupplyOf/SupplyOfOverwrite for every denom, EnterpriseSupply, TotalUnlocked vs bank supply - TotalLocked; TotalSupply/TotalSupplyOverwrite walked with every page size 1..n+2 by key and by offset, each denom exactly once. distinct = (eFUND state zero/partial/spent, number of denoms)",
 		Run: func(c *fw.Ctx) { runMixedProp(c, "C17") }})
 }
